@@ -92,7 +92,7 @@ class _SimFile:
         self._real.flush()
 
     def flush(self):
-        self._fs._sync()
+        self._fs._sync("flush " + self._rel)
         self._fs._event("flush", self._rel, 0)
         if self._fs.killed:
             return
@@ -102,7 +102,7 @@ class _SimFile:
         if self._closed:
             return
         fs = self._fs
-        fs._sync()
+        fs._sync("close " + self._rel)
         fs._event("close", self._rel, 0)
         self._closed = True
         try:
@@ -124,7 +124,7 @@ class _SimFile:
     # -- reads
     def read(self, *a):
         fs = self._fs
-        fs._sync()
+        fs._sync("read " + self._rel)
         fs._event("read", self._rel, 0)
         flt = fs._fault("read", self._rel, self._mode)
         if flt is not None:
@@ -193,6 +193,7 @@ class Coord:
         self.switches = 0
         self.child_pid = None
         self.result_fd = None
+        self.log = []               # (global event number, role, what) for this side's events
 
     def _send(self, kind):
         try:
@@ -217,12 +218,14 @@ class Coord:
         if buf[:1] == b"D":
             self.other_done = True
 
-    def point(self):
+    def point(self, what=""):
         if self.finished:
             return
         if not self.have:
             self._wait()
         self.idx += 1
+        if len(self.log) < 300:
+            self.log.append((self.idx, self.role, what))
         if not self.other_done and _decide(self.seed, self.idx, self.p):
             self.switches += 1
             self._send(b"T")
@@ -293,11 +296,11 @@ class SimFS:
         self.coord = None           # set while a partner invocation runs at the same time (see Coord)
         self.mounts = ()            # top-level folders of the disk that are file systems of their own (EXDEV)
 
-    def _sync(self):
+    def _sync(self, what=""):
         """A file-system event is about to happen: with a partner invocation running, wait for the token."""
         c = self.coord
         if c is not None:
-            c.point()
+            c.point(what)
 
     def stamp(self, rel, advance=True):
         """Give the file the simulated modification time (the real tmpfs mtime is the
@@ -360,7 +363,7 @@ class SimFS:
                 raise OSError(ERRNOS["EROFS"], os.strerror(ERRNOS["EROFS"]), os.fspath(file))
             # reads outside the simulated disk (interpreter internals, the repo's own files): untouched
             return _REAL_OPEN(file, mode, *a, **kw)
-        self._sync()
+        self._sync("open:%s %s" % (mode, rel))
         self._event("open:" + mode, rel, 0)
         flt = self._fault("open", rel, mode)
         if flt is not None:
@@ -388,7 +391,7 @@ class SimFS:
             return real_fn(path, *a, **kw)
         if self.killed:
             return None
-        self._sync()
+        self._sync("%s %s" % (kind, rel))
         self._event(kind, rel, 0)
         flt = self._fault(kind, rel, "w")
         if flt is not None:
@@ -403,7 +406,7 @@ class SimFS:
             return real_fn(path, flags, *a, **kw)
         writing = bool(flags & (os.O_WRONLY | os.O_RDWR | os.O_CREAT | os.O_TRUNC | os.O_APPEND))
         mode = "w" if writing else "r"
-        self._sync()
+        self._sync("os.open:%s %s" % (mode, rel))
         self._event("open:" + mode + ":os", rel, 0)
         flt = self._fault("open", rel, mode)
         if flt is not None:
@@ -416,7 +419,7 @@ class SimFS:
         if (rs is not None or rd is not None):
             if self.killed:
                 return None
-            self._sync()
+            self._sync("rename %s -> %s" % (rs, rd))
             if self.mounts:
                 ms = (rs or "").split(os.sep)[0] if rs is not None else None
                 md = (rd or "").split(os.sep)[0] if rd is not None else None
@@ -822,6 +825,8 @@ class World:
         finally:
             self.fs.coord = None
         self.fired("concurrent-token-handovers", coord.switches + int(res.get("switches", 0)))
+        # the realised interleaving: both sides' file-system events in the order the token allowed them
+        res["trace"] = ["%s %s" % (r_, w_) for _i, r_, w_ in sorted(list(coord.log) + [tuple(x) for x in res.get("coord_log", [])])]
         return res
 
     def quiet_budget_left(self):
